@@ -6,6 +6,7 @@ still read".  For the primary-key sparse index that is: if some row of fragment 
 satisfies the condition then `i` lies inside one of the fragment ranges returned by `Scan`.
 -/
 import OG.C20.Decomp
+import OG.C20.Scan
 
 set_option linter.unusedSectionVars false
 namespace OG.C20
@@ -58,5 +59,113 @@ theorem mayBeInRange_unsound_asWritten :
 the fragment. -/
 example : mayBeInRange true intDisc (.and (.atom 0 .eq 2) (.atom 1 .neq 1)) [false, false]
     [.val 2, .val 2] [.val 3, .val 0] = true := by decide
+
+end OG.C20
+
+/-! ### end to end: `Scan` -/
+
+namespace OG.C20
+open OG.Gen.C20 (Mark)
+
+variable {α : Type} [LT α] [LE α] [DecidableLT α] [DecidableEq α]
+  [Std.IsLinearOrder α] [Std.LawfulOrderLT α]
+
+theorem lexLE_trans : ∀ (a b c : List (Ext α)), lexLE a b → lexLE b c → lexLE a c := by
+  intro a
+  induction a with
+  | nil => intro b c _ _; trivial
+  | cons x xs ih =>
+    intro b c h1 h2
+    cases b with
+    | nil => exact absurd h1 (by simp [lexLE])
+    | cons y ys =>
+      cases c with
+      | nil => exact absurd h2 (by simp [lexLE])
+      | cons z zs =>
+        simp only [lexLE] at h1 h2 ⊢
+        rcases h1 with h1 | ⟨rfl, h1⟩
+        · rcases h2 with h2 | ⟨rfl, _⟩
+          · left; grind
+          · left; exact h1
+        · rcases h2 with h2 | ⟨rfl, h2⟩
+          · left; exact h2
+          · right; exact ⟨rfl, ih ys zs h1 h2⟩
+
+theorem lexLE_take : ∀ (m : Nat) (a b : List (Ext α)), lexLE a b → lexLE (a.take m) (b.take m) := by
+  intro m
+  induction m with
+  | zero => intro a b _; simp [lexLE]
+  | succ m ih =>
+    intro a b h
+    cases a with
+    | nil => simp [lexLE]
+    | cons x xs =>
+      cases b with
+      | nil => exact absurd h (by simp [lexLE])
+      | cons y ys =>
+        simp only [List.take_succ_cons, lexLE] at h ⊢
+        rcases h with h | ⟨rfl, h⟩
+        · left; exact h
+        · right; exact ⟨rfl, ih xs ys h⟩
+
+theorem sat_take (c : Cond α) (k : List (Option α)) (m : Nat) (hm : c.usedKeySize ≤ m) (hs : sat c k) :
+    sat c (k.take m) := by
+  induction c with
+  | atom col op cst =>
+    obtain ⟨x, hx, hsx⟩ := hs
+    simp only [Cond.usedKeySize] at hm
+    refine ⟨x, ?_, hsx⟩
+    rw [List.getElem?_take_of_lt (by omega)]
+    exact hx
+  | other => trivial
+  | and a b iha ihb =>
+    simp only [Cond.usedKeySize] at hm
+    exact ⟨iha (by omega) hs.1, ihb (by omega) hs.2⟩
+  | or a b iha ihb =>
+    simp only [Cond.usedKeySize] at hm
+    rcases hs with h | h
+    · exact Or.inl (iha (by omega) h)
+    · exact Or.inr (ihb (by omega) h)
+
+/-- **T2 (the property for the primary-key sparse index).** Let `marks` be the `n+1` index marks
+(first key of every fragment, last key of the last one), lexicographically non-decreasing,
+each at least as wide as the key prefix the condition uses. If some row with key `k` lies in
+fragment `i` (between its two marks) and satisfies the condition, then `Scan` returns a fragment
+range that contains `i` — for both search strategies, every coarse-index setting ≥ 2, every
+seek threshold, every key width and order, null keys included. -/
+theorem scan_sound (d : Disc α) (hd : d.Lawful) (c : Cond α) (hasKey : Bool) (us : List Bool)
+    (marks : List (List (Ext α))) (coarse minMarks i : Nat) (k : List (Option α))
+    (hco : 2 ≤ coarse)
+    (hi : i < marks.length - 1)
+    (hwidth : ∀ j, j < marks.length → c.usedKeySize ≤ (marks.getD j []).length)
+    (hus : c.usedKeySize ≤ us.length) (hk : c.usedKeySize ≤ k.length)
+    (hsorted : ∀ j j', j ≤ j' → j' < marks.length → lexLE (marks.getD j []) (marks.getD j' []))
+    (hl : lexLE (marks.getD i []) (k.map toExt)) (hr : lexLE (k.map toExt) (marks.getD (i + 1) []))
+    (hs : sat c k) :
+    ∃ p ∈ scan true d c hasKey us marks coarse minMarks, p.1 ≤ i ∧ i < p.2 := by
+  unfold scan
+  simp only []
+  cases hasKey with
+  | false => exact ⟨(0, marks.length - 1), by simp, by omega, hi⟩
+  | true =>
+    simp only [Bool.not_true, Bool.false_eq_true, if_false]
+    have hchk : ∀ s e, s ≤ i → i < e → e ≤ marks.length - 1 →
+        mayBeInRange true d c (us.take c.usedKeySize) ((marks.getD s []).take c.usedKeySize)
+          ((marks.getD e []).take c.usedKeySize) = true := by
+      intro s e h1 h2 h3
+      apply mayBeInRange_sound d hd c _ _ _ (k.take c.usedKeySize)
+      · simp only [List.length_take]
+        have := hwidth s (by omega); omega
+      · simp only [List.length_take]
+        have := hwidth e (by omega); omega
+      · simp only [List.length_take]; omega
+      · rw [List.map_take]
+        exact lexLE_take _ _ _ (lexLE_trans _ _ _ (hsorted s i h1 (by omega)) hl)
+      · rw [List.map_take]
+        exact lexLE_take _ _ _ (lexLE_trans _ _ _ hr (hsorted (i + 1) e (by omega) (by omega)))
+      · exact sat_take c k _ (Nat.le_refl _) hs
+    split
+    · exact binarySearch_sound _ _ i hi hchk
+    · exact exclusionSearch_sound _ coarse minMarks _ i hco hi hchk
 
 end OG.C20
